@@ -236,3 +236,12 @@ Theorem C05_frame_and_delete : forall s, reachable s ->
   (forall a k, rd (fst (step s (Delete a))) a k = None).
 Proof. exact frame_and_delete. Qed.
 Print Assumptions C05_frame_and_delete.
+
+(* (full) array export: both storages return an array of shape (len(container), arity) with its axes of length 1
+   dropped and of the attribute's dtype - the sparse and the dense export have the same shape for every container
+   size, 0, 1 and 2 included (the generated dense_export_shape / sparse_export_shape are what is proved about) *)
+Theorem C05_export_shape : forall s a at_ sh k, reachable s -> lookup a (attrs s) = Some at_ ->
+  snd (step s (ExportShape a)) = OShape sh k ->
+  sh = squeeze [sn s; asz at_] /\ k = aty at_ /\ fst (step s (ExportShape a)) = tick s.
+Proof. exact export_shape. Qed.
+Print Assumptions C05_export_shape.
